@@ -40,6 +40,66 @@ def gen_histories(ctx):
     return cases
 
 
+def check_keyed(ctx, coq_ok):
+    """HTTP/2 (stream id) and Kafka (correlation id): responses in any order."""
+    for proto in ("http2", "kafka"):
+        hists = M.keyed_histories(ctx.rng, proto, ctx.tier == "quick")
+        rc, out = ctx.vh("vh-match", ["seq"], inp="\n".join(M.keyed_line(proto, h) for h in hists) + "\n", timeout=1200)
+        lines = [l for l in out.splitlines() if l.startswith("{")]
+        if rc != 0 or len(lines) != len(hists):
+            ctx.broken.append("K_keyed[%s]: harness failed rc=%d (%d/%d results)" % (proto, rc, len(lines), len(hists)))
+            ctx.log(out[-600:])
+            continue
+        terms, reported = [], 0
+        for h, l in zip(hists, lines):
+            r = json.loads(l)
+            exp_items, exp_res = M.keyed_expected(h)
+            got_items = [(i["conn"], i["req"], i["resp"]) for i in r["items"] or []]
+            got_res = M.parse_residue(proto, r["residue"])
+            ctx.count_case((proto, tuple(h)), len(exp_items) >= 1 and len(h) >= 3, proto)
+            ok = (set(got_items) == exp_items and len(got_items) == len(set(got_items)) and got_res == exp_res
+                  and all(i["oriented"] for i in r["items"] or []) and not r.get("panic"))
+            if not ok and reported < 3:
+                reported += 1
+                ctx.violation({"kind": "keyed-history", "protocol": proto, "history": ["%d:%s:%d:%d" % e for e in h],
+                               "observed": r, "expected_items": sorted(exp_items), "expected_residue": sorted(exp_res),
+                               "how": "echo '%s' | work/bin/vh-match seq" % M.keyed_line(proto, h)})
+            terms.append("(%s, %s, %s)" % (M.coq_kev(h), M.coq_items(r["items"] or []), M.coq_residue(got_res)))
+        ctx.sample({"protocol": proto, "history": ["%d:%s:%d:%d" % e for e in hists[len(hists) // 2]],
+                    "result": json.loads(lines[len(hists) // 2])})
+        if coq_ok:
+            bad = []
+            for k in range(0, len(terms), 1200):
+                src = ("Require Import V.Base.Prelude V.Match.Matcher V.Match.MatcherConc.\n"
+                       "Definition cases : list (list kev * list item * list (nat * nat * bool * nat)) := [\n" + ";\n".join(terms[k:k + 1200]) + "].\n"
+                       "Definition chk (c : list kev * list item * list (nat * nat * bool * nat)) := let '(h, its, res) := c in\n"
+                       "  let st := krun h in list_eqb item_eqb (snd st) its && list_eqb quad_eqb (residue (fst st) [1;2;3;4] 12) res.\n"
+                       "Definition M := Eval vm_compute in failing chk cases.\nPrint M.\n")
+                rc, out = ctx.coq_run("keyed_%s_%d" % (proto, k), src)
+                idx = vlib.parse_coq_list_of_nat(out, "M")
+                if rc != 0 or idx is None:
+                    ctx.broken.append("K_keyed[%s]: coqc failed on the case file" % proto)
+                    ctx.log(out[-600:])
+                    break
+                bad += [k + i for i in idx]
+            ctx.cov["traces_validated_against_impl"] = ctx.cov.get("traces_validated_against_impl", 0) + len(terms)
+            if bad and not ctx.violations:
+                ctx.broken.append("K_keyed[%s]: model and implementation differ on history %s" % (proto, M.keyed_line(proto, hists[bad[0]])))
+    # recorded finding: a Kafka response that is dissected before its request is dropped after the
+    # matcher's polling limit and the server side stops
+    for f in ctx.load_known():
+        if f.get("class") == "kafka-response-before-request":
+            rc, out = ctx.vh("vh-match", ["seq"], inp=f["witness"] + "\n")
+            try:
+                r = json.loads([l for l in out.splitlines() if l.startswith("{")][0])
+            except Exception:
+                continue
+            if not r["items"]:
+                ctx.known_finding(f["id"], f["text"])
+            else:
+                ctx.note("known finding %s no longer reproduces" % f["id"])
+
+
 def run(ctx):
     ctx.build_harness()
     if not ctx.harness_tagged:
@@ -100,6 +160,7 @@ def run(ctx):
             ctx.cov["traces_validated_against_impl"] = ctx.cov.get("traces_validated_against_impl", 0) + len(terms)
             if bad and not ctx.violations:
                 ctx.broken.append("K_seq[%s]: model and implementation differ on history %s" % (proto, M.hist_line(proto, hists[bad[0]])))
+    check_keyed(ctx, coq_ok)
     ctx.trusted += [
         "gated-reader harness vh-match (one message per read; a side has handled a message when it asks for input again)",
         "modelled, not verified: sync.Map operations linearizable; Sprintf idents injective for the '_'-free address components used (several connections exercised)",
